@@ -123,6 +123,7 @@ def func_iso_violations(lines, view):
     return viol
 
 SUB_OFF_ = 1048576
+ERR_OFF_ = 1073741824
 
 
 def checks_field(det, c):
@@ -521,6 +522,19 @@ def process_c12(item):
                 res['status'] = 'diff'
                 res['diff'][','.join(pth)] = {k: [v[0][:3], v[1][:3], len(v[0]), len(v[1])] for k, v in d.items()}
             iv = View(ilines)
+            # "every departure from the path before Bk leads to an error block": in the function built by the real tool, the
+            # copy of a path block Bi (i < k) has the copy of B(i+1) as its only successor that is not an error block
+            want_ = [int(p[1:]) for p in pth]
+            by_idx = {fb['idx']: (key, fb) for key, fb in iv.fblocks.items() if key < SUB_OFF_}
+            for i_, bi in enumerate(want_[:-1]):
+                if bi not in by_idx: continue
+                key_, fb_ = by_idx[bi]
+                nxt_ok = by_idx.get(want_[i_ + 1], (None, None))[0]
+                bad = [k for k in fb_['next'] if k != nxt_ok and k < ERR_OFF_]
+                if bad:
+                    names = [f"B{iv.fblocks[k]['idx']}" if k in iv.fblocks else str(k) for k in bad]
+                    viol[('C12', 'departure', ','.join(pth) + f':B{bi}', 0)] = (f"in the function for dispatch path {list(pth)} block B{bi} keeps the edge(s) to {names}: "
+                        f"a departure from the path before B{want_[-1]} must lead to an error block")
             if iv.analysed:
                 if rr is None:
                     if drv.load(toks) != 'semprog ok': break
